@@ -5,6 +5,62 @@ use std::{
     path::{Path, PathBuf},
 };
 
+/// Verification step point (feature `fuellabs_sway_verif`): expands to nothing without the feature.
+/// With the feature it only acts when `SWAY_VERIF_STEP_CTL` is set, see `verif::step`.
+macro_rules! verif_step {
+    ($name:expr) => {
+        #[cfg(feature = "fuellabs_sway_verif")]
+        verif::step($name);
+    };
+}
+
+#[cfg(feature = "fuellabs_sway_verif")]
+mod verif {
+    use std::{
+        path::PathBuf,
+        sync::atomic::{AtomicUsize, Ordering},
+        time::Duration,
+    };
+
+    static STEP: AtomicUsize = AtomicUsize::new(0);
+
+    /// If `SWAY_VERIF_STEP_CTL=<dir>` is set: announce the `n`-th step point of this process by
+    /// creating `<dir>/<pid>.<n>.at` (content: the step name) and block until `<dir>/<pid>.<n>.go`
+    /// exists. Without the variable this does nothing.
+    pub fn step(name: &str) {
+        let Some(dir) = std::env::var_os("SWAY_VERIF_STEP_CTL") else {
+            return;
+        };
+        let dir = PathBuf::from(dir);
+        let pid = std::process::id();
+        let n = STEP.fetch_add(1, Ordering::SeqCst);
+        let tmp = dir.join(format!("{pid}.{n}.at.tmp"));
+        let at = dir.join(format!("{pid}.{n}.at"));
+        let go = dir.join(format!("{pid}.{n}.go"));
+        let _ = std::fs::write(&tmp, name);
+        let _ = std::fs::rename(&tmp, &at);
+        while !go.exists() {
+            std::thread::sleep(Duration::from_micros(100));
+        }
+    }
+
+    /// If `SWAY_VERIF_DEAD_PIDS` is set (a file listing pids, or a literal list; separated by
+    /// commas or whitespace), the listed pids are reported as not active.
+    pub fn pid_dead_override(pid: usize) -> bool {
+        let Some(v) = std::env::var_os("SWAY_VERIF_DEAD_PIDS") else {
+            return false;
+        };
+        let v = v.to_string_lossy().to_string();
+        let list = if v.contains('/') {
+            std::fs::read_to_string(&v).unwrap_or_default()
+        } else {
+            v
+        };
+        list.split(|c: char| c == ',' || c.is_whitespace())
+            .any(|t| t.parse::<usize>().ok() == Some(pid))
+    }
+}
+
 /// Very simple AdvisoryPathMutex class
 ///
 /// The goal of this struct is to signal other processes that a path is being used by another
@@ -40,6 +96,10 @@ impl PidFileLocking {
     /// Checks if the given pid is active
     #[cfg(not(target_os = "windows"))]
     fn is_pid_active(pid: usize) -> bool {
+        #[cfg(feature = "fuellabs_sway_verif")]
+        if verif::pid_dead_override(pid) {
+            return false;
+        }
         // Not using sysinfo here because it has compatibility issues with fuel.nix
         // https://github.com/FuelLabs/fuel.nix/issues/64
         use std::process::Command;
@@ -77,6 +137,7 @@ impl PidFileLocking {
                 self.get_locker_pid()
             )))
         } else {
+            verif_step!("rel.remove");
             self.remove_file()?;
             Ok(())
         }
@@ -97,15 +158,19 @@ impl PidFileLocking {
     /// Returns the PID of the owner of the current lock. If the PID is not longer active the lock
     /// file will be removed
     pub fn get_locker_pid(&self) -> Option<usize> {
+        verif_step!("glp.open");
         let fs = File::open(&self.0);
         if let Ok(mut file) = fs {
             let mut contents = String::new();
+            verif_step!("glp.read");
             file.read_to_string(&mut contents).ok();
             drop(file);
             if let Ok(pid) = contents.trim().parse::<usize>() {
+                verif_step!("glp.active");
                 return if Self::is_pid_active(pid) {
                     Some(pid)
                 } else {
+                    verif_step!("glp.remove");
                     let _ = self.remove_file();
                     None
                 };
@@ -127,10 +192,13 @@ impl PidFileLocking {
         self.release()?;
         if let Some(dir) = self.0.parent() {
             // Ensure the directory exists
+            verif_step!("lock.mkdir");
             create_dir_all(dir)?;
         }
 
+        verif_step!("lock.create");
         let mut fs = File::create(&self.0)?;
+        verif_step!("lock.write");
         fs.write_all(std::process::id().to_string().as_bytes())?;
         fs.sync_all()?;
         fs.flush()?;
@@ -141,6 +209,7 @@ impl PidFileLocking {
     /// Returns a vector of paths that were cleaned up
     pub fn cleanup_stale_files() -> io::Result<Vec<PathBuf>> {
         let lock_dir = user_forc_directory().join(".lsp-locks");
+        verif_step!("cl.readdir");
         let entries = read_dir(&lock_dir)?;
         let mut cleaned_paths = Vec::new();
 
@@ -149,15 +218,20 @@ impl PidFileLocking {
             let path = entry.path();
             if let Some(ext) = path.extension().and_then(|ext| ext.to_str()) {
                 if ext == "lock" {
+                    verif_step!("cl.open");
                     if let Ok(mut file) = File::open(&path) {
                         let mut contents = String::new();
+                        verif_step!("cl.read");
                         if file.read_to_string(&mut contents).is_ok() {
                             if let Ok(pid) = contents.trim().parse::<usize>() {
+                                verif_step!("cl.active");
                                 if !Self::is_pid_active(pid) {
+                                    verif_step!("cl.remove");
                                     remove_file(&path)?;
                                     cleaned_paths.push(path);
                                 }
                             } else {
+                                verif_step!("cl.remove");
                                 remove_file(&path)?;
                                 cleaned_paths.push(path);
                             }
